@@ -112,6 +112,18 @@ func specC03(tier string) *SeqSpec {
 			s.InitSweep = append(s.InitSweep, Op{Args: []string{"DEL", "k1", "k2"}, Then: []Op{c("RPUSH", "k1", "one", "", "three", "b"), c("LPUSH", "k2", "", "b", "cc"), a, c("LRANGE", "k1", "0", "-1"), c("LRANGE", "k2", "0", "-1")}})
 		}
 	}
+	// lists that were not built by pushes but made by a copying command (their nodes are linked by other code):
+	// every command of the family on the copy, then reads from both ends and pops down to the last element
+	for _, a := range A {
+		for _, via := range [][]Op{{c("COPY", "k1", "kc"), c("DEL", "k1"), c("RENAME", "kc", "k1")}, {c("SORT", "k1", "BY", "nosort", "STORE", "kc"), c("DEL", "k1"), c("RENAME", "kc", "k1")}} {
+			seq := append(append([]Op{}, via...), a, c("LRANGE", "k1", "0", "-1"), c("LINDEX", "k1", "-1"), c("LINDEX", "k1", "-2"), c("LINDEX", "k1", "-3"), c("LINDEX", "k1", "-4"), c("LINDEX", "k1", "-5"), c("LLEN", "k1"),
+				c("LINSERT", "k1", "BEFORE", "y", "ins"), c("LREM", "k1", "-1", "x"), c("RPOP", "k1"), c("LRANGE", "k1", "0", "-1"), c("RPOP", "k1", "2"), c("LLEN", "k1"), c("LRANGE", "k1", "0", "-1"), c("LPOP", "k1", "9"), c("EXISTS", "k1"))
+			o := seq[0]
+			o.Then = seq[1:]
+			s.InitSweep = append(s.InitSweep, o)
+		}
+	}
+	s.Keys = append(s.Keys, "kc")
 	// long lists (200 and 1000 elements; every earlier state has at most 8): searches that miss, writes in the
 	// middle, searches for what was just written, from both ends
 	for _, n := range []int{200, 1000} {
